@@ -267,7 +267,8 @@ impl State {
             rhs_pointer.get_if_unique_target(),
         ) {
             (Some((lhs_id, lhs_offset)), Some((rhs_id, rhs_offset))) if lhs_id == rhs_id => {
-                if !(self.memory.is_unique_object(lhs_id)?) {
+                // Note that the ID may have no corresponding memory object (e.g. for parameters that are never dereferenced).
+                if !matches!(self.memory.is_unique_object(lhs_id), Ok(true)) {
                     // Since the pointers may or may not point to different instances referenced by the same ID we cannot compare them.
                     return Ok(());
                 }
